@@ -58,6 +58,7 @@ type wtCase struct {
 	vnow     int            // virtual clock (ms); moves only at `expire`
 	base     time.Time
 	timers   map[int64]wtTimer // goroutine -> the expiry timer it sleeps on
+	lapsed   map[string]bool   // key -> its record's expiry has passed (virtual time) and nobody has rewritten it since
 	failed   bool
 	mainGid  int64
 	nontriv  bool
@@ -233,6 +234,17 @@ func (c *wtCase) missedWakeups() {
 		if !w.started || w.done || held || w.resolved == "" {
 			continue
 		}
+		if c.lapsed[w.key] {
+			// a fired timer wakes its goroutine asynchronously: look again after a generous pause
+			time.Sleep(150 * time.Millisecond)
+			g2 := allGoroutines()[w.gid]
+			if !(g2.state == "select" && strings.Contains(g2.stack, "WaitForVersionChange")) {
+				return
+			}
+			c.ctx.R.Quiet("mon C07-no-missed-wakeup", fmt.Sprintf("waiter %d is still parked on %s although the record's expiry has passed and every due expiry timer was fired (no timer armed for this waiter?)", w.idx, w.key))
+			c.failed = true
+			continue
+		}
 		if cur, ok := vers[w.key]; !ok || cur != w.resolved {
 			c.ctx.R.Quiet("mon C07-no-missed-wakeup", fmt.Sprintf("waiter %d is parked awaiting a change of %s from version ordinal %d, but the record is %s", w.idx, w.key, w.verOrd, map[bool]string{true: "at another version", false: "gone"}[ok]))
 			c.failed = true
@@ -268,7 +280,7 @@ func (c *wtCase) parkedOn(key string) int {
 }
 
 func runWaitersCase(ctx *Ctx, specs [][2]interface{}, script []string) {
-	c := &wtCase{ctx: ctx, st: inmem.New(), expiry: map[string]int{}, mainGid: goid(), timers: map[int64]wtTimer{},
+	c := &wtCase{ctx: ctx, st: inmem.New(), expiry: map[string]int{}, mainGid: goid(), timers: map[int64]wtTimer{}, lapsed: map[string]bool{},
 		base: time.Date(2031, 1, 1, 0, 0, 0, 0, time.UTC)}
 	// virtual time: the in-memory store reads the clock through verifNow() and takes its expiry timers from
 	// the harness, which fires them when the virtual clock has passed their deadline (`expire` op)
@@ -376,8 +388,10 @@ func runWaitersCase(ctx *Ctx, specs [][2]interface{}, script []string) {
 				t := c.base.Add(time.Duration(ex) * time.Millisecond)
 				rec.ExpiresAt = &t
 				c.expiry[f[1]] = ex
+				delete(c.lapsed, f[1])
 			} else {
 				delete(c.expiry, f[1])
+				delete(c.lapsed, f[1])
 			}
 			if c.parkedOn(f[1]) > 0 {
 				c.nontriv = true
@@ -395,6 +409,7 @@ func runWaitersCase(ctx *Ctx, specs [][2]interface{}, script []string) {
 			if err == nil {
 				c.versions = append(c.versions, v)
 				delete(c.expiry, f[1])
+				delete(c.lapsed, f[1])
 				c.flush("write " + f[1])
 			} else {
 				c.flush("touch " + f[1])
@@ -416,6 +431,7 @@ func runWaitersCase(ctx *Ctx, specs [][2]interface{}, script []string) {
 				if err == nil {
 					c.versions = append(c.versions, r.Version)
 					delete(c.expiry, f[1])
+					delete(c.lapsed, f[1])
 					c.flush("write " + f[1])
 				} else {
 					c.flush("touch " + f[1])
@@ -428,6 +444,7 @@ func runWaitersCase(ctx *Ctx, specs [][2]interface{}, script []string) {
 			}
 			if err := c.st.Delete(bg, f[1]); err == nil {
 				delete(c.expiry, f[1])
+				delete(c.lapsed, f[1])
 				c.flush("delete " + f[1])
 			} else {
 				c.flush("touch " + f[1])
@@ -446,7 +463,16 @@ func runWaitersCase(ctx *Ctx, specs [][2]interface{}, script []string) {
 			now := c.vnow
 			c.mu.Unlock()
 			delete(c.expiry, f[1])
+			c.lapsed[f[1]] = true
 			ctx.R.Op("expire "+f[1], "ok")
+			// the clock is shared: every other record whose expiry lies before the new time has lapsed too
+			for _, k2 := range []string{"a", "b"} {
+				if e2, ok := c.expiry[k2]; ok && e2 < now {
+					delete(c.expiry, k2)
+					c.lapsed[k2] = true
+					ctx.R.Op("expire "+k2, "ok")
+				}
+			}
 			// … and every expiry timer whose deadline has passed fires
 			c.mu.Lock()
 			var due []*time.Timer
@@ -622,6 +648,24 @@ func runWaiters(ctx *Ctx) {
 			for i := 0; i < r.Range(1, 3); i++ {
 				script = append(script, []string{"put a", "delete a", "cancel 1", "cas a current"}[r.Intn(4)])
 			}
+		}
+		if nw >= 2 && r.Chance(1, 6) {
+			// directed: several waiters on ONE expiring record; some of them give up before the expiry; nobody
+			// touches the key afterwards: every remaining waiter must be woken by its own expiry timer
+			specs = [][2]interface{}{{"a", 1}, {"a", 1}}
+			script = []string{"putx a", "start 0", "start 1"}
+			if nw == 3 {
+				specs = append(specs, [2]interface{}{"a", 1})
+				script = append(script, "start 2")
+			}
+			if r.Chance(1, 3) {
+				script = append(script, "put b") // an unrelated write in between
+			}
+			script = append(script, fmt.Sprintf("cancel %d", r.Intn(nw)))
+			if nw == 3 && r.Chance(1, 2) {
+				script = append(script, fmt.Sprintf("cancel %d", r.Intn(nw)))
+			}
+			script = append(script, "expire a")
 		}
 		runWaitersCase(ctx, specs, script)
 	}
